@@ -393,7 +393,7 @@ def rule_counter_plumbing(eng, rep, A, rule="C02-3.counter-plumbing"):
     specs = []
     for nm, w, pname in (("NF", nfw, "nf"), ("NX", nxw, "nx")):
         e = b.params.get(pname)
-        specs.append(RoleSpec(nm, [vfg.key_of(e)], w.nodes))
+        specs.append(RoleSpec(nm, [vfg.key_of(e)], w.plain))
     blames, stats = solve_roles(vfg, specs)
     for bl in blames:
         rep.bad(rule, vfg.describe(bl.src), blame_key(vfg, bl), "a value that is not the %s counter flows into soln.%s" % (bl.role, bl.role.lower()), path=bl.path)
